@@ -21,6 +21,19 @@ def raises_in(stmts):
     return out
 
 
+def always_raises(stmts):
+    """Every path through the statement list ends in a raise."""
+    if not stmts:
+        return False
+    s = stmts[-1]
+    if isinstance(s, ast.Raise):
+        return not any(isinstance(y, ast.Return) for b in stmts[:-1] for y in ast.walk(b))
+    if isinstance(s, ast.If):
+        return bool(s.orelse) and always_raises(s.body) and always_raises(s.orelse) and \
+            not any(isinstance(y, ast.Return) for b in stmts[:-1] for y in ast.walk(b))
+    return False
+
+
 def exits(stmts):
     """True if the statement list unconditionally leaves the function (raise / return)."""
     return bool(stmts) and isinstance(stmts[-1], (ast.Raise, ast.Return))
